@@ -133,9 +133,21 @@ func (h *handler) Handle(ctx context.Context, header *protocol.RequestHeader, re
 				topicNames = append(topicNames, *t.Topic)
 			}
 		}
+		// Topics this principal asked about but may not auto-create. Auto-creation
+		// is a write: it needs the same permission as the produce path that would
+		// otherwise create the topic (acl.ActionProduce on the topic).
+		var createDenied map[string]struct{}
 		if h.autoCreateTopics && len(topicNames) > 0 {
 			for _, name := range topicNames {
 				if strings.TrimSpace(name) == "" {
+					continue
+				}
+				if !h.allowTopic(principal, name, acl.ActionProduce) {
+					h.recordAuthzDeniedWithPrincipal(principal, acl.ActionProduce, acl.ResourceTopic, name)
+					if createDenied == nil {
+						createDenied = make(map[string]struct{})
+					}
+					createDenied[name] = struct{}{}
 					continue
 				}
 				if err := h.ensureTopic(ctx, name, 0); err != nil {
@@ -186,6 +198,19 @@ func (h *handler) Handle(ctx context.Context, header *protocol.RequestHeader, re
 		}()
 		if err != nil {
 			return nil, fmt.Errorf("load metadata: %w", err)
+		}
+		if len(createDenied) > 0 {
+			// A topic that does not exist and that the principal may not create is
+			// reported as an authorization failure, not as a (retriable) unknown topic.
+			for i := range meta.Topics {
+				topic := &meta.Topics[i]
+				if topic.Topic == nil || topic.ErrorCode != protocol.UNKNOWN_TOPIC_OR_PARTITION {
+					continue
+				}
+				if _, denied := createDenied[*topic.Topic]; denied {
+					topic.ErrorCode = protocol.TOPIC_AUTHORIZATION_FAILED
+				}
+			}
 		}
 		resp := kmsg.NewPtrMetadataResponse()
 		resp.Brokers = meta.Brokers
